@@ -39,6 +39,10 @@ def gen_cases(tier, seed):
     # one step OBJECT at two positions of the sequence (check = validate(); Flow(data, check, double, check))
     for i in range({'quick': 16, 'thorough': 160}[tier]):
         yield {'family': 'repeated_step', 'idx': 2 * 10 ** 6 + i, 'seed': seed}
+    # steps that compute under context-local settings of the caller (decimal precision) in front of a step that moves
+    # the upstream into a helper thread (parallelize)
+    for i in range({'quick': 3, 'thorough': 12}[tier]):
+        yield {'family': 'caller_context', 'idx': 3 * 10 ** 6 + i, 'seed': seed}
     # the same rejection of alien links with assertions disabled (python -O)
     yield {'family': 'alien_optimized', 'idx': 10 ** 6, 'seed': seed}
 
@@ -353,9 +357,53 @@ def run_repeated_step(case):
                 sample={'repeated': op, 'between': middle})
 
 
+def _ratio(row):
+    return row['a'] / row['b']
+
+
+def _touch(row):
+    row['seen'] = True
+
+
+def run_caller_context(case):
+    import decimal
+    rng = boot.rng(case['seed'], 'C01', 'context', case['idx'])
+    d = lab.df()
+    counters = {'strategies_compared': 0, 'stepwise_runs': 0, 'links_rejected': 0}
+    viol = []
+    n = rng.choice([5, 40])
+    prec = rng.choice([6, 40])
+    rows = [{'id': i, 'a': decimal.Decimal(i + 1), 'b': decimal.Decimal(7), 'seen': False} for i in range(n)]
+    F = [{'name': 'id', 'type': 'integer'}, {'name': 'a', 'type': 'number'}, {'name': 'b', 'type': 'number'},
+         {'name': 'seen', 'type': 'boolean'}]
+    bs = [lambda: lab.source('t', F, rows),
+          lambda: d.add_computed_field([{'target': {'name': 'q', 'type': 'number'}, 'operation': _ratio}]),
+          lambda: d.parallelize(_touch, num_processors=rng.choice([1, 2]))]
+    with decimal.localcontext() as ctx:
+        ctx.prec = prec
+        with boot.quiet():
+            results, dp, _ = d.Flow(*[b() for b in bs]).results(on_error=None)
+        base = outcome(dp.descriptor, [sorted(r, key=lambda x: x['id']) for r in results])
+        sw = run_stepwise(bs)
+        sw = Outcome((sw[0], [sorted(r, key=lambda x: x['id']) for r in sw[1]]))
+    counters['stepwise_runs'] += 1
+    counters['strategies_compared'] += 1
+    with lab.exact_decimals():
+        dd = diff(base, sw)
+    if dd:
+        viol.append({'kind': 'lazy_vs_stepwise', 'mech': 'lazy_vs_stepwise/caller_context',
+                     'msg': 'decimal precision %d set by the caller, a computed field in front of parallelize: lazy != '
+                     'step-by-step: %s' % (prec, dd[:500])})
+    return dict(nontrivial=True, violations=viol, counters=counters,
+                cov={'op_x_position': {}, 'callable_shape': {}, 'strategy': {'caller_context/prec%d' % prec: 1}},
+                sample={'rows': n, 'precision': prec})
+
+
 def run_case(case):
     if case['family'] == 'alien_optimized':
         return run_alien_optimized(case)
+    if case['family'] == 'caller_context':
+        return run_caller_context(case)
     if case['family'] == 'repeated_step':
         return run_repeated_step(case)
     fam = case['family']
